@@ -9,8 +9,9 @@ pub fn scenario_by_name(name: &str) -> Option<Box<dyn Scenario>> {
         "digest-stream" | "C13" => Some(Box::new(crate::scen_digest::DigestStream)),
         "ecies-net" | "C11" => Some(Box::new(crate::scen_ecies::EciesNet)),
         "ecdsa-net" | "C05" => Some(Box::new(crate::scen_ecdsa::EcdsaNet)),
+        "spend-net" | "C15" => Some(Box::new(crate::scen_spend::SpendNet)),
         _ => None,
     }
 }
 
-pub const ALL: &[(&str, &str)] = &[("C04", "tx-history"), ("C16", "interp-driver"), ("C09", "artefact-medium"), ("C13", "digest-stream"), ("C11", "ecies-net"), ("C05", "ecdsa-net")];
+pub const ALL: &[(&str, &str)] = &[("C04", "tx-history"), ("C16", "interp-driver"), ("C09", "artefact-medium"), ("C13", "digest-stream"), ("C11", "ecies-net"), ("C05", "ecdsa-net"), ("C15", "spend-net")];
